@@ -8,7 +8,7 @@
    Part 3  NumpyTensorSpace._lincomb / _multiply / _divide
    (nested product spaces and the public wrappers: C01/ModelSpace.v) *)
 From Coq Require Import ZArith List Bool.
-From Verif Require Import Base.Num Base.Vec C01.Syntax Gen.Lincomb.
+From Verif Require Import Base.Num Base.Vec C01.Syntax Gen.Lincomb Gen.SpaceOps.
 Import ListNotations.
 Local Open Scope num_scope.
 
@@ -188,11 +188,25 @@ Definition lincomb_impl (cast : T -> T) (fl bdt : bool) (flags : list (bool * bo
            (a : T) (x1 : nat) (b : T) (x2 : nat) (out : nat) (s : store) : outcome :=
   lincomb_impl_sz cast fl bdt flags (Z.of_nat (length (s x1))) a x1 b x2 out s.
 
-(* np.multiply(x1.data, x2.data, out=out.data), np.divide(...) *)
-Definition multiply_impl (x1 x2 out : nat) (s : store) : outcome :=
-  Ok (upd s out (vmul (s x1) (s x2))).
-Definition divide_impl (x1 x2 out : nat) (s : store) : outcome :=
-  Ok (upd s out (vdiv (s x1) (s x2))).
+(* NumpyTensorSpace._lincomb: the regenerated call of _lincomb_impl (which argument goes where) *)
+Definition pick3 {A} (o : operand) (v1 v2 vo : A) : A := match o with X1 => v1 | X2 => v2 | OUT => vo end.
+Definition sval2 (a b : T) (c : sc) : T :=
+  sval {| e_a := a; e_b := b; e_x1 := O; e_x2 := O; e_out := O |} c.
+Definition tensor_lincomb (cast : T -> T) (fl bdt : bool) (flg : nat -> bool * bool)
+           (a : T) (x1 : nat) (b : T) (x2 : nat) (out : nat) (s : store) : outcome :=
+  let '(pa, p1, pb, p2, po) := tensor_lincomb_call in
+  let i1 := pick3 p1 x1 x2 out in let i2 := pick3 p2 x1 x2 out in let io := pick3 po x1 x2 out in
+  lincomb_impl cast fl bdt [flg i1; flg i2; flg io] (sval2 a b pa) i1 (sval2 a b pb) i2 io s.
+
+(* NumpyTensorSpace._multiply / _divide: the regenerated single ufunc call
+   np.<ufunc>(A.data, B.data, out=C.data) -- every entry of C is written *)
+Definition uf_fn (u : ufunc) : T -> T -> T :=
+  match u with UMul => nmul | UDiv => ndiv | UAdd => nadd | USub => nsub end.
+Definition ufunc_impl (c : ufunc * operand * operand * operand) (x1 x2 out : nat) (s : store) : outcome :=
+  let '(u, pa, pb, po) := c in
+  Ok (upd s (pick3 po x1 x2 out) (vmap2 (uf_fn u) (s (pick3 pa x1 x2 out)) (s (pick3 pb x1 x2 out)))).
+Definition multiply_impl (x1 x2 out : nat) (s : store) : outcome := ufunc_impl tensor_multiply_call x1 x2 out s.
+Definition divide_impl (x1 x2 out : nat) (s : store) : outcome := ufunc_impl tensor_divide_call x1 x2 out s.
 
 (* the entry-wise result, computed independently of any store *)
 Definition lincomb_spec (a : T) (u : list T) (b : T) (v : list T) : list T := vlin a u b v.
